@@ -157,7 +157,7 @@ def size_conc(rng, literals, mode, nreal=1, has_qm=False):
             ms = rng.sample(MARKERS, len(literals))
     marker = dict(zip(literals, ms))
     if mode == "huge":
-        L = rng.choice([21845, 21846, 32768, 32769, 65535]) if not has_qm else rng.choice([4096, 4097])
+        L = rng.choice([21845, 21846, 32768]) if not has_qm else rng.choice([4096, 4097])
     elif mode == "block":
         L = pick(rng, BOUNDARY, 4097)
     else:
